@@ -9,8 +9,8 @@ run with the event log on, the log is exported with the real dadi.Demes.output, 
       with the graph `output` returned (as resolved by `demes`) and with the events `demes` reports for it
       (check_export, tolerance 1e-12 relative per number; names = ranks in the graph's deme list);
   (b) the model's  native_calls log  is compared with the calls that were actually made (check_native);
-  (c) for logs in the class of the theorem (no reorder_pops) the conclusion of export_import_same_program is evaluated
-      on the REAL exported graph: the importer model run on it = native_calls log ++ [reorder; from_phi] (check_prog).
+  (c) the conclusion of export_import_same_program / export_import_reorder is evaluated on the REAL exported graph:
+      the importer model run on it = sorted_calls log ++ [from_phi] (check_prog).
 Exit status 0 iff everything agrees.  It does not touch ./check C16; it shows how to wire the same comparison into
 harness/props/c16.py (export_phase) - see harness/props/c16_export.py.
 """
@@ -195,17 +195,16 @@ def main():
         counts['stage %d' % st] = counts.get('stage %d' % st, 0) + 1
         ex_cases.append((p['id'], X.export_case_coq(nu, rounds, p['Nref'], p['gen_time'], r['graph'], r['events1'], r['final_ids'])))
         nat_cases.append((p['id'], X.native_case_coq(nu, rounds, r['calls0'])))
-        if X.in_theorem_class(rounds):
-            ids = {d['name']: i for i, d in enumerate(r['graph']['demes'])}
-            fin = X.natl([ids[x] for x in r['final_ids']])
-            gt = 'None' if p['gen_time'] is None else '(Some %s)' % X.q(p['gen_time'])
-            lg = X.elog_coq(nu, rounds)
-            rt_cases.append((p['id'], '(front std_wirings true %s %s %s None [] [] %s (Some %s) %s, '
-                             'map (fun c => mkL (c_fn c) (c_T c) (map (fun s => (sf_is_fun s, [(0, sf_eval s 0); (c_T c, sf_eval s (c_T c))])) (c_nus c)) '
-                             '(c_fs c) (c_fr c) (c_ns c) (c_ids c)) '
-                             '(native_calls %s ++ [simple_call F_reorder_pops [] (seq 1 (length (final_ids %s))) []; simple_call F_from_phi [] %s (final_ids %s)]))'
-                             % (gt, X.graph_coq(r['graph'], ids), fin, X.events_coq(r['events1'], ids), X.q(p['Nref']), X.natl(p['ns']),
-                                lg, lg, X.natl(p['ns']), lg)))
+        ids = {d['name']: i for i, d in enumerate(r['graph']['demes'])}
+        fin = X.natl([ids[x] for x in r['final_ids']])
+        gt = 'None' if p['gen_time'] is None else '(Some %s)' % X.q(p['gen_time'])
+        lg = X.elog_coq(nu, rounds)
+        rt_cases.append((p['id'], '(front std_wirings true %s %s %s None [] [] %s (Some %s) %s, '
+                         'map (fun c => mkL (c_fn c) (c_T c) (map (fun s => (sf_is_fun s, [(0, sf_eval s 0); (c_T c, sf_eval s (c_T c))])) (c_nus c)) '
+                         '(c_fs c) (c_fr c) (c_ns c) (c_ids c)) '
+                         '(sorted_calls %s ++ [simple_call F_from_phi [] %s (final_ids %s)]))'
+                         % (gt, X.graph_coq(r['graph'], ids), fin, X.events_coq(r['events1'], ids), X.q(p['Nref']), X.natl(p['ns']),
+                            lg, X.natl(p['ns']), lg)))
     print('classes:', json.dumps(counts, sort_keys=True))
     tmp = tempfile.mkdtemp(prefix='c16x_')
     ok_all = bad == 0
